@@ -490,7 +490,7 @@ def _establishes(nzl, expr, polarity, pred):
     return bool(pred(atom))
 
 
-def unestablished_path(graph, goals, preds, start=None):
+def unestablished_path(graph, goals, preds, start=None, cut_node=None):
     """Path (list of edges) from the entry to a goal node along which one of
     the wanted facts was NOT established, or None when every path
     establishes all of them.  ``preds``: {name: fn(atom) -> bool}.
@@ -517,6 +517,8 @@ def unestablished_path(graph, goals, preds, start=None):
         env = dict(envt)
         node = edge.src
         if node in goals:
+            return []
+        if cut_node is not None and node is not first and cut_node(node):
             return []
         if node.kind == 'test' and edge.kind in ('true', 'false') and \
                 node.ast is not None:
@@ -564,8 +566,8 @@ def unestablished_path(graph, goals, preds, start=None):
                     env.pop(key)
         return [(have, tuple(sorted(env.items(), key=lambda kv: kv[0])))]
 
-    reached = C.explore(graph, [(frozenset(), ())], step,
-                        start=start or graph.entry)
+    first = start or graph.entry
+    reached = C.explore(graph, [(frozenset(), ())], step, start=first)
     for (node, state) in reached:
         if node in goals and len(state[0]) < len(names):
             return C.witness(reached, (node, state))
